@@ -288,16 +288,17 @@ Definition oversize (c : cfg) (t : req) : bool :=
   let cps := if r_cpr t =? 0 then 1 else r_cpr t in
   (cpn c <? cps) || (64 * gpn c <? r_gpr t) || (lfs_pn c <? r_lfs t) || (mem_pn c <? r_mem t).
 
-(* walk all events in order, tracking the node set recorded for every colocate tag *)
+(* walk all events in order, tracking the node set recorded for every colocate tag and the set of tagged nodes
+   (which only grows, also when a later grant overwrites the record of its tag with fewer nodes) *)
 Fixpoint c02_events (c : cfg) (ns0 : list node) (rs : list req) (evs : list event)
-  (tags : list (Z * list Z)) (acc : list bool) : list bool * list (Z * list Z) :=
+  (tags : list (Z * list Z)) (tgd : list Z) (acc : list bool) : list bool * list (Z * list Z) :=
   match evs with
   | [] => (acc, tags)
   | Started u sl :: r =>
       match find_req u rs with
-      | None => c02_events c ns0 rs r tags acc
+      | None => c02_events c ns0 rs r tags tgd acc
       | Some t =>
-          if is_pre t then c02_events c ns0 rs r tags acc
+          if is_pre t then c02_events c ns0 rs r tags tgd acc
           else
             let b_ranks := Z.of_nat (length sl) =? r_ranks t in
             let b_shape := forallb (slot_shape_ok ns0 t) sl in
@@ -312,8 +313,7 @@ Fixpoint c02_events (c : cfg) (ns0 : list node) (rs : list req) (evs : list even
                           end in
             let b_over := negb (oversize c t) in
             (* the `exclusive` rule: a new tag with exclusive=True gets no node that an earlier tag uses while the
-               pilot has more nodes than tagged ones (the tagged set is the union of the recorded tag nodes) *)
-            let tgd := zadd_all (concat (map snd tags)) [] in
+               pilot has more nodes than tagged ones *)
             let b_excl := match r_colo t with
                           | None => true
                           | Some tag => match zlookup tag tags with
@@ -323,17 +323,18 @@ Fixpoint c02_events (c : cfg) (ns0 : list node) (rs : list req) (evs : list even
                                         end
                           end in
             let tags' := match r_colo t with Some tag => zstore tag (map s_node sl) tags | None => tags end in
+            let tgd' := match r_colo t with Some _ => zadd_all (map s_node sl) tgd | None => tgd end in
             let acc' := match acc with
                         | [a1; a2; a3; a4; a5; a6] =>
                             [a1 && b_ranks; a2 && b_shape; a3 && b_rpn; a4 && b_colo; a5 && b_over; a6 && b_excl]
                         | _ => acc end in
-            c02_events c ns0 rs r tags' acc'
+            c02_events c ns0 rs r tags' tgd' acc'
       end
-  | _ :: r => c02_events c ns0 rs r tags acc
+  | _ :: r => c02_events c ns0 rs r tags tgd acc
   end.
 
 Definition c02_bits (c : cfg) (ns0 : list node) (ops : list op) (its : list (snap * list Z)) : list bool :=
-  fst (c02_events c ns0 (all_reqs ops) (concat (map (fun p => sn_events (fst p)) its)) []
+  fst (c02_events c ns0 (all_reqs ops) (concat (map (fun p => sn_events (fst p)) its)) [] []
                   [true; true; true; true; true; true]).
 
 (* ------------------------------------------------------------------ *)
